@@ -38,6 +38,9 @@ type C09Case struct {
 	// Chan: the program is compiled without events, yet the caller attaches a channel to Expr.EventChan
 	// (an application that wires its channel to every expression); nothing is ever sent on it
 	Chan bool `json:"chan,omitempty"`
+	// Wrap: the program sits below an if: 1 as its true branch, 2 as its false branch, 3 inside its
+	// condition - a limit is a limit wherever in the expression it is exceeded
+	Wrap int `json:"wrap,omitempty"`
 }
 
 // neutralConst: a constant operand that neither decides nor breaks the operator.
@@ -337,6 +340,19 @@ func stackShape(shape, need int) *m.Node {
 }
 
 func (c C09Case) tree() *m.Node {
+	t := c.baseTree()
+	switch c.Wrap {
+	case 1:
+		return m.If(m.Var("p0"), t, m.Var("q0"))
+	case 2:
+		return m.If(m.Var("p0"), m.Var("q0"), t)
+	case 3:
+		return m.If(m.Op("eq", t, m.Var("q0")), m.Var("q1"), m.Var("q2"))
+	}
+	return t
+}
+
+func (c C09Case) baseTree() *m.Node {
 	switch c.Kind {
 	case "argwide":
 		// a wide call that is the LAST argument of another call (operands of the enclosing call are
@@ -541,6 +557,9 @@ func genC09(t *rapid.T) C09Case {
 		c.Deep = rapid.IntRange(0, 5).Draw(t, "deep")
 	}
 	c.Chan = c.Events == 0 && rapid.IntRange(0, 2).Draw(t, "chan") == 0
+	if c.Kind != "biglist" && c.Kind != "deep" {
+		c.Wrap = pickW(t, "wrap", 6, 1, 1, 1)
+	}
 	return c
 }
 
@@ -760,6 +779,9 @@ func sweepC09(tier string, shard, shards int, emit func(C09Case)) {
 			}
 			for _, mask := range masks {
 				send(C09Case{Kind: "arity", Op: op, N: n, Mask: mask, Events: n % 3, Reach: true})
+				if thorough || (n+len(op)+mask)%3 == 0 { // ... and below an if
+					send(C09Case{Kind: "arity", Op: op, N: n, Mask: mask, Events: (n + 1) % 3, Reach: true, Wrap: 1 + (n+len(op)+mask)%3})
+				}
 				// constant operands (all, all but the last, all but the first)
 				for consts := 1; consts <= 3; consts++ {
 					if !thorough && consts != 1+(n+len(op)+mask)%3 {
